@@ -29,7 +29,7 @@ RULE = ('streams: (write) message lists ASCII/2/3/4-byte text x send() schedules
 # ---------------------------------------------------------------- rig: real driver over a fake socket
 class FakeSock(object):
     def __init__(self):
-        self.sent = b''; self.script = []; self.recvs = []; self._closed = False; self.nsend = 0
+        self.sent = b''; self.script = []; self.recvs = []; self._closed = False; self.nsend = 0; self.taken = []
     def settimeout(self, t): pass
     def connect(self, a): pass
     def shutdown(self, how): pass
@@ -67,9 +67,9 @@ class RawMsg(object):
 
 class StubIrc(object):
     network = 'test'
-    def __init__(self, ircmsgs):
-        self.q = []; self.fed = []; self.zombie = False; self.driver = None; self.taken = []
-        self.ircmsgs = ircmsgs
+    def __init__(self, ircmsgs, rig):
+        self.q = []; self.fed = []; self.zombie = False; self.driver = None; self.reconnect_requests = 0
+        self.ircmsgs = ircmsgs; self.rig = rig
     def __str__(self): return 'StubIrc'
     __repr__ = __str__
     def queueMsg(self, m):
@@ -77,7 +77,7 @@ class StubIrc(object):
             self.q.append(m)
     def takeMsg(self):
         if self.q:
-            m = self.q.pop(0); self.taken.append(m); return m
+            m = self.q.pop(0); self.rig.sock.taken.append(m); return m
         if self.zombie:
             # Irc.takeMsg: self.driver.die(); self._reallyDie() (which calls driver.die() again)
             self.driver.die(); self.driver.die()
@@ -89,7 +89,13 @@ class StubIrc(object):
                 self.q.append(self.ircmsgs.pong(m.args[0]))
             except AssertionError:
                 pass
-    def reset(self): pass
+        if m.command == 'ERROR' and m.args:          # Irc.doError
+            if m.args[0].lower().startswith('closing link'):
+                self.reconnect_requests += 1; self.driver.reconnect()
+            elif 'too fast' in m.args[0]:
+                self.reconnect_requests += 1; self.driver.reconnect(wait=True)
+    def reset(self):
+        self.q = []                                  # Irc.reset(): queue.reset(), fastqueue.reset()
 
 class Rig(object):
     def __init__(self):
@@ -99,9 +105,12 @@ class Rig(object):
         import supybot.drivers.Socket as S
         self.S = S; self.drivers = drivers; self.conf = conf; self.ircmsgs = ircmsgs; self.utils = utils
         conf.supybot.networks.test.servers.set('localhost:6667')
-        self.sock = None
+        self.sock = None; self.socks = []; self.offset = 0.0
+        rig = self
         utils.net.getAddressFromHostname = lambda h, attempt=0: '127.0.0.1'
-        utils.net.getSocket = lambda *a, **k: self.sock
+        def get_socket(*a, **k):
+            rig.sock = FakeSock(); rig.socks.append(rig.sock); return rig.sock
+        utils.net.getSocket = get_socket
         import select as _select
         class SelShim(object):
             error = _select.error
@@ -109,7 +118,8 @@ class Rig(object):
             def select(r, w, x, t=None):
                 return ([c for c in r if getattr(c, 'recvs', None)], [], [])
         class TimeShim(object):
-            time = staticmethod(time.time)
+            @staticmethod
+            def time(): return time.time() + rig.offset
             @staticmethod
             def sleep(t): pass
         S.select = SelShim; S.time = TimeShim
@@ -119,10 +129,11 @@ class Rig(object):
         S.SocketDriver._instances[:] = []
         drivers._drivers.clear(); drivers._newDrivers[:] = []; drivers._deadDrivers.clear()
         self.conf.supybot.drivers.poll._callbacks = []
-        stub = irc or StubIrc(self.ircmsgs)
-        fs = FakeSock(); self.sock = fs
+        stub = irc or StubIrc(self.ircmsgs, self)
+        self.socks = []
         d = S.SocketDriver(stub)
         stub.driver = d
+        fs = self.sock
         drivers.run()                      # registers the new driver (does not run it yet)
         st = type('St', (), {})()
         st.crash = None; st.wpos = 0; st.fpos = 0
@@ -146,11 +157,12 @@ def enc_msg(m):
 
 def dump(rig, d, stub, fs, st):
     fed = stub.fed[st.fpos:]; st.fpos = len(stub.fed)
-    w = fs.sent[st.wpos:]; st.wpos = len(fs.sent)
+    allsent = b''.join(x.sent for x in rig.socks)
+    w = allsent[st.wpos:]; st.wpos = len(allsent)
     ob = d.outbuffer if isinstance(d.outbuffer, bytes) else d.outbuffer.encode('utf-8', 'surrogatepass')
-    s = 'c%d z%d x%d k%d r%d e%d ob=%s ib=%s w=%s q=%d f=%s' % (
-        d.connected, d.zombie, st.name in rig.drivers._deadDrivers, fs._closed,
-        d.nextReconnectTime is not None, d.eagains, ob.hex(), d.inbuffer.hex(), w.hex(), len(stub.q),
+    s = 'c%d z%d x%d k%d r%d e%d ep%d ob=%s ib=%s w=%s q=%d f=%s' % (
+        d.connected, d.zombie, st.name in rig.drivers._deadDrivers, rig.sock._closed,
+        d.nextReconnectTime is not None, d.eagains, len(rig.socks) - 1, ob.hex(), d.inbuffer.hex(), w.hex(), len(stub.q),
         ';'.join(enc_msg(m) for m in fed) if fed else '-')
     if st.crash:
         s += ' crash=' + st.crash
@@ -162,6 +174,7 @@ def op_line(op):
     if k == 'ss': return 'ss\t' + res_str(op[1])
     if k == 'sr': return 'sr\t' + res_str(op[1])
     if k == 'die': return 'die'
+    if k == 'tick': return 'tick'
     if k == 'loop': return 'loop'
     raise ValueError(op)
 
@@ -191,6 +204,7 @@ def run_history(rig, ops, irc=None):
     obs = {'queued': [], 'must_be_drained': False}
     for op in ops:
         k = op[0]
+        fs = rig.sock                      # scripts address the current socket
         # a loop pass that starts with nothing scripted sends everything; later q/ss ops void that
         if k == 'loop':
             obs['must_be_drained'] = not fs.script and not fs.recvs
@@ -203,10 +217,13 @@ def run_history(rig, ops, irc=None):
         elif k == 'ss': fs.script.append(op[1])
         elif k == 'sr': fs.recvs.append(op[1])
         elif k == 'die': stub.zombie = True
+        elif k == 'tick': rig.offset += 100000
         elif k == 'loop': rig.drivers.run()
         outs.append(dump(rig, d, stub, fs, st))
+    fs = rig.sock
+    obs['epochs'] = [(x.sent, [str(m) for m in x.taken]) for x in rig.socks]
     obs['sent'] = fs.sent
-    obs['taken'] = [str(m) for m in stub.taken]
+    obs['taken'] = [str(m) for m in fs.taken]
     obs['fed'] = [enc_msg(m) for m in stub.fed]
     obs['connected'] = d.connected
     obs['removed'] = st.name in rig.drivers._deadDrivers
@@ -215,7 +232,8 @@ def run_history(rig, ops, irc=None):
     obs['recv_left'] = len(fs.recvs)
     obs['script_left'] = len(fs.script)
     obs['crash'] = st.crash
-    obs['pongs'] = [str(m) for m in stub.taken if isinstance(m, rig.ircmsgs.IrcMsg)]
+    obs['reconnect_requests'] = getattr(stub, 'reconnect_requests', 0)
+    obs['pongs'] = [str(m) for x in rig.socks for m in x.taken if isinstance(m, rig.ircmsgs.IrcMsg)]
     return outs, obs
 
 # ---------------------------------------------------------------- generators
@@ -285,7 +303,8 @@ def gen_write_case(rig, r):
 VALID_LINES = [':n!u@h PRIVMSG #c :hello world', 'PING :abc', 'PING x', ':srv 001 bot :Welcome',
                '@time=2011-10-19T16:40:51.620Z :n!u@h PRIVMSG #c :tagged', '@a=b;c :x NOTICE y :z',
                ':n!u@h PRIVMSG #c :héllo wörld', ':n!u@h PRIVMSG #c :中文 テスト', ':n PRIVMSG #c :😀 ok 🎉',
-               'PING :é', 'PING :a\rb', ':srv 353 bot = #c :a b c', 'ERROR :bye']
+               'PING :é', 'PING :a\rb', ':srv 353 bot = #c :a b c', 'ERROR :bye', 'ERROR :bye', 'ERROR :Closing link: (bye)', 'ERROR :Trying to reconnect too fast',
+               ':srv ERROR :closing LINK', 'ERROR']
 HOSTILE_LINES = [':', '@tag', '@time=zz :a PRIVMSG b :c', '@time :a PRIVMSG b :c', '', ' ', '\r', ':a', '@ x', ': :',
                  '@time=2011-10-19T16:40:51.620Z PING :t', '\x1c\x1d PING :ws \x85', '　PING :ideo ']
 BAD_BYTES = [b'\xff', b'\xc3', b'\xe2\x82', b'\xf0\x9f\x98', b'\xc0\xaf', b'\xed\xa0\x80', b'\xf4\x90\x80\x80',
@@ -346,7 +365,7 @@ def gen_mixed_case(rig, r):
             s = gen_stream(r)
             ops += [('sr', ('d', c)) for c in partition(r, s, r.choice(['random', 'targeted', 'one']))]
         elif k < 13: ops.append(('sr', r.choice([('d', b''), ('e', 104), ('e', 11), ('t',), ('T',)])))
-        elif k < 14: ops.append(('die',))
+        elif k < 14: ops.append(r.choice([('die',), ('tick',), ('tick',)]))
         else: ops.append(('loop',))
     ops += [('loop',)] * 3
     return ops
@@ -357,6 +376,10 @@ def encoded(strs):
 
 def oracle_write(ops, obs):
     """bytes on the socket = UTF-8 of the str(m)s handed over, in order, each once"""
+    for (sent_i, taken_i) in obs['epochs'][:-1]:
+        if not encoded(taken_i).startswith(sent_i):
+            return False, 'an earlier connection received %r… which is not a prefix of the encoding %r… of what was taken for it' % (
+                sent_i[-24:], encoded(taken_i)[-32:]), None
     want = encoded(obs['taken'])
     sent = obs['sent']
     if not want.startswith(sent):
@@ -364,7 +387,7 @@ def oracle_write(ops, obs):
         return False, 'socket received %r… where the encoding of the messages is %r… (first difference at byte %d)' % (
             sent[max(0, i - 8):i + 8], want[max(0, i - 8):i + 8], i), None
     script = [o[1] for o in ops if o[0] == 'ss']
-    hostile = any(o[0] == 'sr' and (o[1][0] == 'e' or (o[1][0] == 'd' and not o[1][1])) for o in ops)
+    hostile = any(o[0] == 'sr' and (o[1][0] == 'e' or (o[1][0] == 'd' and not o[1][1])) for o in ops) or len(obs['epochs']) > 1 or obs['reconnect_requests'] > 0
     if obs['removed'] and sent != want and benign_script(script) and not hostile:
         return False, ('the driver was removed from the loop with %d byte(s) of taken messages never written '
                        '(socket got %r, messages were %r)' % (len(want) - len(sent), sent[-30:], want[-40:])), 'C11-zombie-flush'
@@ -435,6 +458,8 @@ def case_tags(ops, outs, obs):
     if any(' ib=' in o and not o.split(' ib=')[1].startswith(' ') for o in outs): t.add('partial-line-buffered')
     if any(' ob=' in o and not o.split(' ob=')[1].startswith(' ') for o in outs): t.add('outbuffer-nonempty')
     if obs['pongs']: t.add('pong')
+    if len(obs['epochs']) > 1: t.add('reconnected')
+    if any(o[0] == 'tick' for o in ops): t.add('tick')
     if any(any(ord(ch) > 127 for ch in o[1]) for o in ops if o[0] == 'q'): t.add('multibyte-out')
     return tuple(sorted(t))
 
@@ -442,7 +467,7 @@ def case_tags(ops, outs, obs):
 def make_case(rig, r, ops, kind, reads=False):
     outs, obs = run_history(rig, ops)
     ok, msg, fid = oracle_write(ops, obs)
-    if ok and reads and obs['connected'] and not obs['removed'] and not obs['recv_left'] and \
+    if ok and reads and obs['connected'] and not obs['removed'] and not obs['recv_left'] and len(obs['epochs']) == 1 and not obs['reconnect_requests'] and \
             not any(o[0] == 'sr' and (o[1][0] == 'e' or (o[1][0] == 'd' and not o[1][1])) for o in ops):
         ok, msg = oracle_read(rig, r, ops, obs)
     if obs['crash']:
